@@ -617,6 +617,12 @@ def value_getattr(I, obj, name):
             return E.BoundModel(astype, obj)
         if name == 'copy':
             return E.BoundModel(lambda I, r, a, k: r, obj)
+        if name == 'take':
+            def take(I, r, a, k):
+                if a and not is_sym(a[0]) and a[0] in (0, -1):
+                    return r
+                raise PyExc('IndexError')
+            return E.BoundModel(take, obj)
         if name in ('size', 'ndim'):
             return 1 if name == 'size' else 0
     return None
